@@ -17,8 +17,13 @@ what was written.  Utterances for which the reference pipeline itself raises (e.
 Standardize on an empty matrix) are outside the property's domain: they are left out of
 the input set and counted as skipped.
 
-Three further lattices use the same run_case / reference pipeline:
+Further lattices use the same run_case / reference pipeline:
 
+  banks    tool x EVERY bank class (real / analytic / complex responses; scaling functions and windows
+           with non-default parameters) x computer kind and framing (STFT, SI) x (use_log, use_power,
+           include_energy) x pre x post, as inline JSON and as a YAML file
+  large    maps of 700 / 1300 utterances (map text beyond 64 / 128 KiB) and utterances of 2**16 -1, +0, +1
+           and 2**17 + 1 samples through both tools
   seed     tool x computer x dither list x post x --seed in {0, 1, 7, 2**31-1}: same seed twice
            (dirty global generators) and as JSON / YAML files => identical bytes
   framing  tool x frame style (causal, centered, centered + kaldi_shift) x parity of the frame
@@ -119,6 +124,63 @@ def framing_computers(tier):
 
 framing_computers("thorough")       # a replay may name any of them
 
+# banks lattice: EVERY bank class, with the flags that change the kind of its response (real / analytic /
+# complex, zero-phase or not) and with non-default parameters of the objects nested in the configuration
+# (scaling function, window), under every computer kind of both tools.
+_BK = dict(num_filts=3, low_hz=0.0, sampling_rate=RATE)
+BANK_VARIANTS = {
+    "tri": dict(_BK, name="tri", scaling_function="mel"),
+    "tri_an": dict(_BK, name="tri", scaling_function="bark", analytic=True),
+    "tri_lin": dict(_BK, name="tri", scaling_function={"name": "linear", "low_hz": 10.0, "slope_hz": 0.5},
+                    low_hz=20.0, high_hz=450.0),
+    "fbank": dict(_BK, name="fbank"),
+    "fbank_an": dict(_BK, name="fbank", analytic=True, num_filts=2, high_hz=400.0),
+    "gabor": dict(_BK, name="gabor", scaling_function="mel"),
+    "gabor_erb_l2": dict(_BK, name="gabor", scaling_function={"name": "linear", "low_hz": 0.0, "slope_hz": 3.0},
+                         num_filts=2, erb=True, scale_l2_norm=True),
+    "gammatone": dict(_BK, name="gammatone", scaling_function="mel"),
+    "gammatone_mc": dict(_BK, name="gammatone", scaling_function={"name": "linear", "low_hz": 0.0},
+                         num_filts=2, max_centered=True),
+    "gammatone_o2": dict(_BK, name="gammatone", scaling_function={"name": "octave", "low_hz": 30.0},
+                         low_hz=40.0, num_filts=2, order=2),
+}
+# computer shapes: kind, framing, window (one with non-default parameters)
+BANK_SHAPES = {
+    "stft_c": dict(kind="stft", L=6, S=2, style="centered", kaldi=False, window="hamming", pad=True),
+    "stft_k": dict(kind="stft", L=8, S=3, style="centered", kaldi=True, window="hamming", pad=False),
+    "stft_z": dict(kind="stft", L=7, S=3, style="causal", kaldi=False,
+                   window={"name": "gamma", "order": 2, "peak": 0.6}, pad=True),
+    "si_z": dict(kind="si", S=2, style="causal", window="hamming", pad=True),
+    "si_c": dict(kind="si", S=3, style="centered", window={"name": "gamma", "order": 3, "peak": 0.7},
+                 pad=False),
+}
+# (use_log, use_power, include_energy)
+BANK_FLAGS = {"l": (True, False, False), "lpe": (True, True, True), "e": (False, False, True),
+              "p": (False, True, False)}
+
+
+def bank_computers():
+    """registers the computers of the banks lattice in COMPUTERS; -> their names, in lattice order"""
+    names = []
+    for bn, bank in BANK_VARIANTS.items():
+        for sn, shape in BANK_SHAPES.items():
+            for fn, (log, power, energy) in BANK_FLAGS.items():
+                n = "bk_%s_%s_%s" % (bn, sn, fn)
+                COMPUTERS[n] = dict(shape, bank=dict(bank), log=log, power=power, energy=energy)
+                names.append(n)
+    return names
+
+
+bank_computers()
+
+# large inputs: a computer whose frames are long (so that a long signal has few frames) and the sizes of
+# the `large` sub-check: signal lengths around 2**16 and 2**17 samples, maps of many utterances whose
+# text crosses 64 KiB and 128 KiB (one line = 40-character id + path, about 105 characters)
+COMPUTERS["lg_stft"] = dict(kind="stft", bank="fbank", L=100, S=50, style="centered", kaldi=False,
+                            window="hamming", pad=True, log=True, power=False, energy=True)
+LONG_LENGTHS = (65535, 65536, 65537, 131073)
+MANY_COUNTS = (700, 1300)
+
 PRES = {
     "none": [],
     "preemph": ["preemph"],
@@ -163,7 +225,7 @@ def _scale_json(s):
 def computer_json(name):
     """the same configuration as a JSON-able tree for the tool (goes through the alias factory)"""
     c = COMPUTERS[name]
-    bank = dict(cfg.TINY_BANKS[c["bank"]])
+    bank = dict(cfg.TINY_BANKS[c["bank"]] if isinstance(c["bank"], str) else c["bank"])
     if "scaling_function" in bank:
         bank["scaling_function"] = _scale_json(bank["scaling_function"])
     d = {"name": c["kind"], "bank": bank, "frame_shift_ms": c["S"] + 0.5,
@@ -337,6 +399,17 @@ def utterances(setname, comp_name, seed, tool=None):
                 continue
             out.append(("n%02d" % n, samples(seed, n, 50 + n), RATE, "normal" if n >= L else "short"))
         return out
+    if setname == "long":
+        # sig.signal has a linear trend that would saturate int16 on a long signal: removed here
+        return [("g%d" % n, np.clip(np.round((sig.signal(seed, n, offset=170 + k) - 1e-3 * np.arange(n)) * 1000.0),
+                                    -32000, 32000).astype(np.int16), RATE, "normal")
+                for k, n in enumerate(LONG_LENGTHS)]
+    if setname.startswith("many:"):
+        n = int(setname.split(":")[1])
+        ids = ["spk%03d-many-utterances-utt%014d" % (i % 13, i) for i in range(n)]
+        if any(len(u) != 40 for u in ids):
+            raise core.HarnessError("ids of the 'many' set are not 40 characters wide")
+        return [(u, samples(seed, 2 * L + 1 + i % 5, 200 + i % 11), RATE, "normal") for i, u in enumerate(ids)]
     if setname.startswith("m:"):
         # ids of a manifest lattice, in map order or reversed
         _, idset, order = setname.split(":")
@@ -484,7 +557,13 @@ def _comp_tags(comp_name):
     if comp_name == "none":
         return dict(comp="none", bank_real=None, energy=False)
     c = COMPUTERS[comp_name]
-    t = dict(comp=c["kind"], bank_real=c["bank"] in ("tri", "fbank"), energy=bool(c["energy"]))
+    if isinstance(c["bank"], str):
+        real = c["bank"] in ("tri", "fbank")
+    else:
+        real = c["bank"]["name"] in ("tri", "fbank") and not c["bank"].get("analytic")
+    t = dict(comp=c["kind"], bank_real=real, energy=bool(c["energy"]))
+    if comp_name.startswith("bk_"):     # banks lattice: the class of the bank
+        t.update(bank_class=c["bank"]["name"])
     if comp_name.startswith("fr_"):     # framing lattice: the structural coordinates of the point
         t.update(style=c["style"], kaldi_shift=bool(c.get("kaldi")), L_even=c.get("L", 1) % 2 == 0,
                  S_even=c["S"] % 2 == 0)
@@ -823,6 +902,68 @@ def _framing(pt, seed):
 def _case_replay(case, seed):
     r = run_case(case, seed)
     return core.result(r["viol"], nontrivial=r["nontrivial"], obs=r["obs"])
+
+
+# ------------------------------------------------------------------ sub-check: banks
+
+BANK_SYNTAXES = ("inline", "yaml_file")
+
+
+def _banks(pt, seed):
+    """pt = (tool, computer of the banks lattice, pre, post); inner: configuration syntax"""
+    tool, comp_name, pre, post = pt
+    viol, obs, evals, nontriv, skipped = [], set(), 0, 0, 0
+    per = {}
+    for syntax in BANK_SYNTAXES:
+        case = dict(tool=tool, computer=comp_name, pre=pre, post=post,
+                    container="npy" if tool == "torch" else "scp", set="mono", syntax=syntax)
+        r, o = _single(case, seed)
+        viol += r["viol"]
+        evals += 1
+        nontriv += 1 if r["nontrivial"] else 0
+        skipped += r["skipped"]
+        obs |= o
+        per[syntax] = r["stored"]
+    base, other = per["inline"], per["yaml_file"]
+    if not (set(base) == set(other) and all(
+            base[k].shape == other[k].shape and np.array_equal(base[k], other[k]) for k in base)):
+        viol.append(core.violation(
+            dict(tool=tool, what="syntax_differs", syntax="yaml_file"),
+            "the same configuration as a YAML file gives different stored features than inline JSON "
+            "(ids %r vs %r)" % (sorted(other), sorted(base)),
+            dict(tool=tool, computer=comp_name, pre=pre, post=post,
+                 container="npy" if tool == "torch" else "scp", set="mono", syntax="yaml_file",
+                 compare_with="inline")))
+    c = COMPUTERS[comp_name]
+    return core.result(viol, evals=evals, nontrivial_count=nontriv, skipped=skipped,
+                       obs=sorted(obs) + [tool, c["bank"]["name"], c["kind"]],
+                       sample=dict(tool=tool, computer=comp_name, computer_config=computer_json(comp_name),
+                                   pre=PRES[pre], post=POSTS[post]))
+
+
+# ------------------------------------------------------------------ sub-check: large inputs
+
+def _large(pt, seed):
+    """pt = ("long", tool, computer, pre, post) | ("many", count)"""
+    if pt[0] == "long":
+        _, tool, comp_name, pre, post = pt
+        case = dict(tool=tool, computer=comp_name, pre=pre, post=post,
+                    container="npy" if tool == "torch" else "scp", set="long", syntax="inline")
+    else:
+        case = dict(tool="torch", computer="none", pre="none", post="none", container="npy",
+                    set="many:%d" % pt[1], syntax="inline")
+    r, obs = _single(case, seed)
+    viol = []
+    for v in r["viol"]:     # the sizes are what this lattice is about
+        viol.append(core.violation(dict(v["tags"], large=pt[0]), v["detail"][:600], v["case"]))
+    return core.result(viol, evals=1, nontrivial=r["nontrivial"], skipped=r["skipped"],
+                       obs=sorted(obs) + [pt[0], len(r["stored"])], sample=case)
+
+
+def _large_replay(case, seed):
+    if case["set"] == "long":
+        return _large(("long", case["tool"], case["computer"], case["pre"], case["post"]), seed)
+    return _large(("many", int(case["set"].split(":")[1])), seed)
 
 
 # ------------------------------------------------------------------ sub-check: options / ids
@@ -1223,6 +1364,15 @@ def subchecks(tier, seed, only=None):
                  "built-in pre-processors); multi-channel sets only for array containers (torch tool); "
                  "utterances whose reference pipeline raises are left out of the input (skipped)")
     hpts = [(HIST_DEPTH[tier_], i) for i in range(len(_hist_calls()))]
+    # banks: tool x every bank class / response kind x computer kind and framing x flags x pre x post
+    bpres, bposts = ("none", "preemph"), ("none", "deltas_stack")
+    if not quick:
+        bposts += ("standardize",)
+    bpts = [(tool, cn, pre, post) for tool, cn, pre, post in
+            itertools.product(("torch", "kaldi"), bank_computers(), bpres, bposts)]
+    lgpts = [("many", n) for n in MANY_COUNTS] + [
+        ("long", tool, cn, pre, post) for tool, cn in (("torch", "none"), ("torch", "lg_stft"), ("kaldi", "lg_stft"))
+        for pre in ("none", "preemph2") for post in ("none", "stack" if cn == "none" else "deltas_stack")]
     return [
         # first in the list: its children must start from the state "just imported" also when every
         # sub-check runs in one process (VERIF_NPROC=1)
@@ -1246,6 +1396,33 @@ def subchecks(tier, seed, only=None):
             "reference pipeline, and the three syntaxes store identical arrays; non-trivial = at least "
             "one utterance of the run has >= 1 frame",
             axes=axes, replay=lambda case: _pipeline_replay(case, seed)),
+        core.SubCheck(
+            "banks", bpts, lambda p: _banks(p, seed),
+            "tool x bank {triangular real / analytic / on a re-parameterised linear scale, Fbank real / "
+            "analytic, Gabor / Gabor erb + L2 on a linear scale with slope 3, gammatone / max_centered / order 2 "
+            "on an octave scale from 30 Hz} x computer {STFT centered padded, STFT centered + kaldi_shift "
+            "unpadded, STFT causal with a GammaWindow(order 2, peak 0.6), SI causal, SI centered unpadded with "
+            "a GammaWindow(order 3, peak 0.7)} x (use_log, use_power, include_energy) in {TFF, TTT, FFT, FTF} "
+            "x pre {none, preemph} x post {none, [deltas, stack]}; inner: configuration as inline JSON and as "
+            "a block-style YAML file: exactly the expected ids are stored, each allclose to the NumPy reference "
+            "pipeline (explicit construction), both syntaxes identical; non-trivial = at least one utterance "
+            "has >= 1 frame",
+            axes=dict(tool=["torch", "kaldi"], bank=BANK_VARIANTS, computer=BANK_SHAPES,
+                      flags={k: dict(use_log=v[0], use_power=v[1], include_energy=v[2])
+                             for k, v in BANK_FLAGS.items()},
+                      pre=list(bpres), post=list(bposts), syntax=list(BANK_SYNTAXES), utterance_set="mono"),
+            replay=lambda case: _pipeline_replay(case, seed)),
+        core.SubCheck(
+            "large", lgpts, lambda p: _large(p, seed),
+            "inputs larger than any block a tool may use: (a) the torch tool on maps of %r utterances with "
+            "40-character ids (map text beyond 64 KiB / 128 KiB; raw samples); (b) tool x computer {none "
+            "(torch tool), STFT with 100-sample frames} x pre {none, [preemph, preemph 0.5]} x post {none, "
+            "[deltas, stack] (raw samples: [stack]; Deltas over 131073 rows takes seconds)} on one run holding utterances of %r samples: exactly the expected ids are "
+            "stored, each allclose to the NumPy reference pipeline; non-trivial = an utterance with >= 1 "
+            "frame is expected" % (MANY_COUNTS, LONG_LENGTHS),
+            axes=dict(many=list(MANY_COUNTS), long_lengths=list(LONG_LENGTHS),
+                      computer=dict(lg_stft=COMPUTERS["lg_stft"])),
+            replay=lambda case: _large_replay(case, seed), chunk=1),
         core.SubCheck(
             "seed", spts, lambda p: _seed_case(p, seed),
             "tool x computer x dither list x post: --seed 7 twice (different global RNG states) and as "
